@@ -221,7 +221,14 @@ pub fn do_write(var: &Var<Val>, op: WriteOp, operand: &Val) -> Option<Val> {
         }
         WriteOp::Replace => Some(var.replace(operand.clone())),
         WriteOp::ReplaceWith => {
-            Some(var.replace_with(|v| write_result(WriteOp::ReplaceWith, v, operand)))
+            Some(var.replace_with(|v| {
+                let new = write_result(WriteOp::ReplaceWith, v, operand);
+                if crate::choice::dv() >= 4 {
+                    // the closure may use its argument as scratch space
+                    *v = scramble(v);
+                }
+                new
+            }))
         }
     }
 }
